@@ -488,6 +488,30 @@ def parseE (lines : List (List Char)) : Except PyExc (List Event) := do
   let r ← runE PState.init lines
   pure (r.2 ++ finish r.1)
 
+/-! ### From the program's output to the line stream (`read_decode`, specification)
+
+The documented behaviour of the layer between a test program's stdout and the parser, for lines that fit the
+pipe reader's buffer: the (decoded) output is cut after every `\n`, a last unterminated piece is a line too,
+and `\r\n` is folded to `\n` inside each line.  (Lines longer than the StreamReader limit are handed over in
+pieces by the code; that is outside this specification and a recorded finding.) -/
+
+def splitLines : List Char → List (List Char)
+  | [] => []
+  | c :: cs =>
+    if c = '\n' then [c] :: splitLines cs
+    else match splitLines cs with
+      | [] => [[c]]
+      | l :: ls => (c :: l) :: ls
+
+/-- `line.replace('\r\n', '\n')` -/
+def foldCRLF : List Char → List Char
+  | [] => []
+  | [c] => [c]
+  | c :: d :: cs => if c = '\r' ∧ d = '\n' then '\n' :: foldCRLF cs else c :: foldCRLF (d :: cs)
+
+/-- the lines handed to `TAPParser.parse` for the decoded output `out` -/
+def outputLines (out : List Char) : List (List Char) := (splitLines out).map foldCRLF
+
 /-! ### Verdict (`TestRunTAP.parse`, `TestRunTAP.complete`, `TestRun._complete`) -/
 
 /-- the local variable `res` of `TestRunTAP.parse` after the event loop -/
